@@ -129,7 +129,10 @@ def _st_layout(draw, allow_stagger):
             "perm": draw(st.one_of(st.none(), _seed)),
             "dx": draw(st.sampled_from([16.0, 32.0, 1.0, 0.5, -16.0])),
             "dy": draw(st.sampled_from([20.0, 15.0, 1.0, -20.0])),
-            "x0": draw(st.sampled_from([0.0, 11.0, -59.0])), "y0": draw(st.sampled_from([0.0, 20.0, 3840.0]))}
+            "x0": draw(st.sampled_from([0.0, 11.0, -59.0])), "y0": draw(st.sampled_from([0.0, 20.0, 3840.0])),
+            # the unit the coordinates are expressed in (um, mm, m, or anything else): a layout is a set of positions, not
+            # a set of integers
+            "unit": draw(st.sampled_from([1.0, 1.0, 1.0, 1.0, 1e-3, 1e-6, 0.1, 1.0 / 3.0]))}
 
 
 @st.composite
@@ -396,8 +399,9 @@ def _layout(case):
     if case.get("perm") is not None:
         p = np.random.default_rng(case["perm"]).permutation(gx.size)
         gx, gy = gx[p], gy[p]
-    x = case["x0"] + gx * case["dx"]
-    y = case["y0"] + gy * case["dy"]
+    unit = case.get("unit", 1.0)
+    x = (case["x0"] + gx * case["dx"]) * unit
+    y = (case["y0"] + gy * case["dy"]) * unit
     ix = gx if case["dx"] > 0 else nx - 1 - gx   # rank of the coordinate among the sorted unique values
     iy = gy if case["dy"] > 0 else ny - 1 - gy
     return ix, iy, x, y
@@ -523,8 +527,9 @@ def _k(kind, tag):
 
 def _coords(v, kind):
     """Trace coordinates as the caller may hold them: float64 / float32 / integer arrays, a list, read-only or
-    non-contiguous views. All generated coordinates are multiples of 0.5 below 2^13, so every form holds the same numbers
-    (the integer form is used for integral coordinates only)."""
+    non-contiguous views. With unit 1 the coordinates are multiples of 0.5 below 2^13, so every form holds the same numbers
+    (the integer form is used for integral coordinates only; with another unit float32 still keeps distinct positions
+    distinct and in order, which is all the embedding may depend on)."""
     if kind == "int":
         return v.astype(np.int64) if bool(np.all(v == np.round(v))) else np.array(v, copy=True)
     return _vec(v, "array" if kind == "f8" else kind)
